@@ -2,7 +2,7 @@
    Statements only; every proof is `exact <lemma>`.  Model: ec_glob / glob_loop / glob_scan of ExDefs.v over
    the line buffer whose ln_glob bits (and ghost identities) travel with the lines in lbuf_replace. *)
 From Coq Require Import List NArith ZArith Bool.
-From NV Require Import Bytes ExDefs ExSpec ExProps GlobDefs GlobProps GlobTrack.
+From NV Require Import Bytes ExDefs ExSpec ExProps GlobDefs GlobProps GlobTrack GlobUniq.
 Import ListNotations.
 
 (* THE VISIT THEOREM.  ec_glob, after resolving its range [b, b+n+1) and compiling the pattern, runs
@@ -18,10 +18,10 @@ Import ListNotations.
    * when the scan ends normally (x = 0: not by a failing command list, not by fuel) no mark is left and every
      original-range identity whose mark no execution dropped has been visited (completeness).
    In the model a mark is dropped only by lbuf_replace removing (or over-replacing) its line: replace_mids_sub/mknew.
-   WHAT IS NOT PROVED: keeps_exec for the concrete commands with keeps = "the line is still in the buffer" (needs the
-   invariant that identities are unique and nextid is above all of them); good_exec for command lists of SEVERAL
-   commands is false in general (KF-GLOB-LOW, refuted by the corpus case) -- C15_single_commands_track_low below covers
-   single commands. *)
+   The concrete forms are below: C15_visits_every_remaining_line (completeness with "still in the buffer"),
+   C15_single_commands_track_low / _preserve_identities (every single command of the list is such an executor).
+   WHAT IS NOT PROVED: good_exec for a nested global, u, !, @ as the command; good_exec for command lists of SEVERAL
+   commands is false in general (KF-GLOB-LOW, refuted by the corpus case). *)
 Theorem C15_visits : forall dep rfind exec keeps,
   good_exec exec dep -> keeps_exec exec dep keeps ->
   forall s b n pat body not fuel,
@@ -85,6 +85,39 @@ Theorem C15_nondeleting_command_visits_all : forall dep rvalid rfind filter read
   x = 0%N -> exists vs, map fst vis' = first :: vs /\ sub vs M0 /\ (forall m, In m M0 -> In m vs) /\ mids dep (lns (lb s')) = [].
 Proof. exact nondeleting_global_visits_all. Qed.
 Print Assumptions C15_nondeleting_command_visits_all.
+
+(* COMPLETENESS IN THE PROPERTY'S WORDS ("each line of the original range that still exists is visited"), for an arbitrary
+   executor that is good_exec and pres_exec (keeps identities unique, only grows nextid, drops a mark only together with
+   its line, never brings an identity back): from a buffer with unique identities and no stale marks, when the scan ends
+   normally every identity of the original range that is still in the buffer has been visited (and the visits are line beg
+   + a subsequence of the range, no mark is left, identities are still unique) *)
+Theorem C15_visits_every_remaining_line : forall dep rfind exec,
+  good_exec exec dep -> pres_exec exec dep ->
+  forall s b n pat body not fuel,
+  uniq (lb s) -> nomarks dep (lns (lb s)) -> (b < length (lns (lb s)))%nat ->
+  let M0 := map lid (firstn n (skipn (S b) (lns (lb s)))) in
+  let first := lid (nth b (lns (lb s)) dline) in
+  let '(s', vis', x) := glob_loop_x rfind exec fuel b pat body not dep (set_lb s (globset_range n (S b) dep (lb s))) [] in
+  x = 0%N -> exists vs, map fst vis' = first :: vs /\ sub vs M0 /\ mids dep (lns (lb s')) = [] /\ uniq (lb s') /\
+                        (forall m, In m M0 -> In m (map lid (lns (lb s'))) -> In m vs).
+Proof. exact glob_present_from_marking. Qed.
+Print Assumptions C15_visits_every_remaining_line.
+
+(* ... and every single command of the list -- a i c d s pu r (p k y = rs ec null), any address, any text -- is such an
+   executor; lbuf_replace is pres_lb for every splice; the initial buffer has unique identities *)
+Theorem C15_single_commands_preserve_identities : forall dep rvalid rfind filter readfile curpath a loc cmd arg txt,
+  In a track_cmds ->
+  pres_exec (fun _ s => ex_simple rvalid rfind filter readfile curpath a loc cmd arg txt s) dep.
+Proof. exact single_pres_exec. Qed.
+Print Assumptions C15_single_commands_preserve_identities.
+
+Theorem C15_replace_preserves_identities : forall dep s pos n_del l, pres_lb dep l (lbuf_replace s pos n_del l).
+Proof. exact replace_pres. Qed.
+Print Assumptions C15_replace_preserves_identities.
+
+Theorem C15_initial_identities_unique : forall data, uniq (init_lbuf data).
+Proof. exact uniq_init. Qed.
+Print Assumptions C15_initial_identities_unique.
 
 (* lbuf_replace: marks only travel with surviving lines, new lines are born unmarked (any splice, any text); a splice
    that puts in at least as many lines as it takes out drops no mark *)
